@@ -86,7 +86,9 @@ def judge(v, records, sc, tag):
                                                                            json.dumps(ev.get("obs", ev.get("outcomes")))[:500])
                 hyphen = any(p["in"] == "path" and "-" in p["wire"] for p in (rq.get("handler") or {}).get("params", []))
                 slash_arg = any("/" in str(a) for a in ((ev.get("obs") or {}).get("args") or []))
-                viol.append({"prop": prop, "id": cid, "what": what, "detail": detail, "engine": eng, "kind": rq["kind"], "url": rq["url"], "toks": rq.get("toks") or [], "hyphenPath": hyphen, "slashArg": slash_arg})
+                hparams = (rq.get("handler") or {}).get("params", [])
+                empty_header = any(t_ == "empty" and i_ < len(hparams) and hparams[i_]["in"] == "header" for i_, t_ in enumerate(rq.get("toks") or []))
+                viol.append({"prop": prop, "id": cid, "what": what, "detail": detail, "engine": eng, "kind": rq["kind"], "url": rq["url"], "toks": rq.get("toks") or [], "hyphenPath": hyphen, "slashArg": slash_arg, "emptyHeader": empty_header})
     runs = sum(1 for x in lines if x.startswith('{"ev":"Run"'))
     cmps = n - runs
     kinds = collections.Counter()
@@ -109,7 +111,8 @@ KNOWN_RULES = [
     ("echo-trailing-param-matches-slashes", {"C02", "C12"}, lambda f: f.get("engine") == "echo" and f.get("kind") == "probe" and ("/zz/extra" in f.get("url", "") or f.get("slashArg"))),
     ("fiber-empty-header-is-absent", {"C12"}, lambda f: f.get("kind") == "token" and "empty" in f.get("toks", [])),
     # the same engine behaviour seen from C05: an OPTIONAL (pointer) non-string header sent with an empty value is not answered 422 on fiber
-    ("fiber-empty-header-is-absent", {"C05"}, lambda f: f.get("engine") == "fiber" and f.get("kind") == "token" and "empty" in f.get("toks", []) and "not answered 422" in f.get("what", "")),
+    ("fiber-empty-header-is-absent", {"C05", "C02"}, lambda f: f.get("engine") == "fiber" and f.get("kind") == "token" and f.get("emptyHeader")),
+    ("fiber-empty-header-is-absent", {"C12"}, lambda f: f.get("kind") == "token" and f.get("emptyHeader")),
     # (only for projects that really have two controllers of one struct name in two packages: any other redeclaration is a violation)
     ("generic-result-import-alias", {"C09"}, lambda f: f.get("genericResult") and "missing import path" in f.get("what", "")),
     ("generic-argument-unqualified", {"C09"}, lambda f: f.get("genericArgDeclared") and "undefined: " in f.get("what", "")),
